@@ -931,7 +931,12 @@ func (m *Model) verifyFunc(name string, ct *Contract) (*Enc, error) {
 	guard := "true"
 	for _, g := range sortedKeys(ct.Inits) {
 		sc := e.specCtxPost(fc, st, guard, nil)
-		st.ghost[g] = sc.mat(sc.val(ct.Inits[g]))
+		iv := sc.val(ct.Inits[g])
+		if iv.Nil {
+			st.ghost[g] = e.m.zeroOfSort(e.ghostSort(g), nil)
+		} else {
+			st.ghost[g] = sc.mat(iv)
+		}
 	}
 	fc.entrySt = st.clone()
 	for _, rq := range ct.Requires {
